@@ -342,6 +342,7 @@ func (x *FnExec) contractCall(c *Contract, sig *types.Signature, key string, arg
 		}
 		mev.bindResults(c, rt, res)
 		mev.payload = payload
+		mev.guard = g
 		for _, m := range c.Modifies {
 			x.havocLoc(mev, m.E, frozen, st)
 		}
@@ -401,7 +402,12 @@ func (x *FnExec) havocLoc(ev *SpecEnv, e SExpr, pre, st *State) {
 			newA := tc.Fresh("modarr", as)
 			i := tc.BVar("i", x.refSort())
 			outside := tc.Or(x.intLt(i, x.intAdd(sl.off, lo)), x.intGe(i, x.intAdd(sl.off, hi)))
-			x.addFact(tc.Forall([]*Term{i}, tc.Implies(outside, tc.Eq(tc.Select(newA, i), tc.Select(oldA, i)))))
+			fact := tc.Forall([]*Term{i}, tc.Implies(outside, tc.Eq(tc.Select(newA, i), tc.Select(oldA, i))))
+			if ev.guard != nil {
+				x.assume(ev.guard, fact)
+			} else {
+				x.addFact(fact)
+			}
 			st.setHeap(key, tc.Store(h, sl.arr, newA))
 		}
 	case *SCall:
